@@ -60,6 +60,7 @@ def vc_hash(obl):
 def _solve(obl, budget_s, seed, on_model, ground_only=False, want_hash=False):
     s = z3.Solver()
     s.set('rlimit', int(budget_s * RL_PER_S))
+    s.set('timeout', int(budget_s * 6 * 1000))       # wall-clock backstop far above the nominal budget (quantifier-heavy VCs run ~1M units/s)
     s.set('random_seed', seed)
     for h in obl.hyps:
         if ground_only and has_quantifier(h):
@@ -137,7 +138,10 @@ def discharge(obls, timeout=20, procs=16, seed=0, on_model=None, use_cvc5=True, 
             if retry_timeout:
                 plan.append(('z3:long', retry_timeout))
             h = hints.get(o.id)
-            if h and any(b == h for b, _ in plan) and plan[0][0] != h:
+            if h == 'open' and not want_hash:
+                # never discharged when the lock was written: one z3 rung only (looks for a refutation); recorded as open, never as proved
+                plan = [('z3', timeout)]
+            elif h and any(b == h for b, _ in plan) and plan[0][0] != h:
                 plan = [x for x in plan if x[0] == h] + [x for x in plan if x[0] != h]
         plans[i] = plan
     todo = [(i, plans[i][0][1], plans[i][0][0]) for i in sorted(plans)]
@@ -188,7 +192,7 @@ def discharge(obls, timeout=20, procs=16, seed=0, on_model=None, use_cvc5=True, 
                     running[fd] = (pid, i, t0, tmo, be, buf + chunk)
                     continue
                 done = True
-            elif now - t0 > (tmo * 12 + 60 if be != 'cvc5' else tmo + 8):
+            elif now - t0 > (tmo * 7 + 30 if be != 'cvc5' else tmo + 8):
                 try:
                     os.kill(pid, signal.SIGKILL)
                 except OSError:
